@@ -15,7 +15,7 @@ use std::process::Command;
 #[derive(Serialize, Deserialize, Clone, Debug)]
 pub enum Case {
     /// generator side: extra-column counts 0..=max through bed_autosql, the library and the tool
-    Columns { max: u32, tool: bool },
+    Columns { max: u32, tool: bool, #[serde(default)] style: u8 },
     /// a supplied single-table schema: stored verbatim with its field count (library; tool when `tool`)
     Supplied { schema: GenSchema, tool: bool, ucsc_flag: bool },
     /// a grammar-generated multi-declaration schema: parses with the generated counts; every
@@ -64,6 +64,31 @@ fn tmpdir() -> tempfile::TempDir {
         .prefix("c19_")
         .tempdir_in(std::env::var("VERIF_TMP").unwrap_or_else(|_| std::env::temp_dir().to_string_lossy().to_string()))
         .expect("tempdir")
+}
+
+/// n extra columns; style 1: every third column contains a space, style 2: an empty interior column
+fn styled_rest(n: u32, style: u8) -> String {
+    let plain = rest_with(n);
+    if n == 0 || style == 0 {
+        return plain;
+    }
+    let mut cols: Vec<String> = plain.split('\t').map(|c| c.to_string()).collect();
+    match style {
+        1 => {
+            for (i, c) in cols.iter_mut().enumerate() {
+                if i % 3 == 0 {
+                    *c = format!("{} x", c);
+                }
+            }
+        }
+        _ => {
+            if cols.len() >= 3 {
+                let k = cols.len() / 2;
+                cols[k] = String::new();
+            }
+        }
+    }
+    cols.join("\t")
 }
 
 fn rest_with(n: u32) -> String {
@@ -117,7 +142,7 @@ impl Prop for C19 {
     const ID: &'static str = "C19";
     const TERMINATION: bool = true;
     fn rule() -> String {
-        "GENERATOR SIDE: for every extra-column count 0..=40 bed_autosql parses to one declaration with 3+n fields; bedtobigbed without -a on a first line with n extra columns stores that text and field count 3+n; \
+        "GENERATOR SIDE: for every extra-column count 0..=40 bed_autosql parses to one declaration with 3+n fields; bedtobigbed without -a on a first line with n extra columns (plain tokens, columns containing spaces, an empty interior column) stores that text and field count 3+n; \
          the library default is the BED3 text with 3 fields; a grammar-generated single-table schema (simple/object/table, sized and variable arrays, enum/set, primary/unique/index/index[n], auto, arbitrary comments) \
          supplied to the library and to the tool (-a file / -as=file) is stored verbatim with its number of fields (also via bigbedinfo --autosql in thorough). \
          TOTALITY: parse_autosql on (i) grammar-generated multi-declaration schemas (must be Ok with min(n,4) declarations and the generated field counts), (ii) every truncation on a char boundary, \
@@ -157,7 +182,12 @@ impl Prop for C19 {
         .boxed()
     }
     fn fixed_cases(tier: Tier) -> Vec<Case> {
-        let mut v = vec![Case::Columns { max: 40, tool: false }, Case::Columns { max: 40, tool: true }];
+        let mut v = vec![Case::Columns { max: 40, tool: false, style: 0 }, Case::Columns { max: 40, tool: true, style: 0 }];
+        // columns are TAB-separated: a column may contain spaces, an interior column may be empty
+        for style in [1u8, 2] {
+            v.push(Case::Columns { max: 40, tool: false, style });
+            v.push(Case::Columns { max: 40, tool: true, style });
+        }
         let maxlen = tier.pick(5u8, 6u8);
         for len in 1..=maxlen {
             for first in 0..16u8 {
@@ -337,14 +367,14 @@ impl Prop for C19 {
                 }
                 Ok(())
             }
-            Case::Columns { max, tool } => {
+            Case::Columns { max, tool, style } => {
                 obs.label(if *tool { "columns-tool" } else { "columns-library" });
                 for n in 0..=*max {
-                    let rest = rest_with(n);
+                    let rest = styled_rest(n, *style);
                     let sql = bed_autosql(&rest);
                     publish(&sql);
                     let sub = |obs: &mut Obs, m: String| -> String {
-                        obs.reduced = Some(serde_json::to_value(Case::Columns { max: n, tool: *tool }).unwrap());
+                        obs.reduced = Some(serde_json::to_value(Case::Columns { max: n, tool: *tool, style: *style }).unwrap());
                         m
                     };
                     match parse_total(&sql) {
